@@ -1551,6 +1551,32 @@ def unroll_literal_tables(trees):
                         continue
             out.append(st)
         return out
+    def unroll_class_body(cls):
+        """declarations in a class body written as a loop over a literal tuple of names (`for s in (abort, done): s.upon(...)`)
+        -> one copy of the body per name; a following `del <loop variable>` goes with it"""
+        nonlocal n
+        out = []
+        i = 0
+        body = cls.body
+        while i < len(body):
+            st = body[i]
+            if isinstance(st, ast.For) and not st.orelse and isinstance(st.target, ast.Name) and isinstance(st.iter, (ast.Tuple, ast.List)) and 1 <= len(st.iter.elts) <= 8 \
+                    and all(isinstance(e, (ast.Name, ast.Constant)) for e in st.iter.elts) and all(isinstance(b, ast.Expr) and isinstance(b.value, ast.Call) for b in st.body):
+                for e in st.iter.elts:
+                    for b in st.body:
+                        out.append(ast.copy_location(_subst_names(b, {st.target.id: e}), st))
+                n += 1
+                if i + 1 < len(body) and isinstance(body[i + 1], ast.Delete) and all(isinstance(t, ast.Name) and t.id == st.target.id for t in body[i + 1].targets):
+                    i += 1
+                i += 1
+                continue
+            out.append(st)
+            i += 1
+        cls.body = out
+    for tree in trees.values():
+        for cls in [c for c in ast.walk(tree) if isinstance(c, ast.ClassDef)]:
+            if any(isinstance(st, ast.For) for st in cls.body):
+                unroll_class_body(cls)
     for tree in trees.values():
         if not any(isinstance(x, (ast.For, ast.ListComp)) for x in ast.walk(tree)):
             continue
